@@ -348,9 +348,43 @@ def run_threads(desc):
                     out.violation({'call': list(d), 'got': jsonable(got), 'want': jsonable(table[d]), 'problem': 'result differs under 8 concurrent threads'},
                                   bucket=('threads', d[0]))
                     break
+            # compiled matchers shared by all threads (a matcher "can be reused for any number of match / filter calls"): every
+            # thread asks about its own names, which differ from the other threads' in the answer
+            shared = [(F.compile('*.txt', flags=0), [('a.txt', True), ('a.py', False), ('b.txt', True), ('txt', False)]),
+                      (F.compile(['a*', 'b*'], flags=F.D, exclude='*.py'), [('a.txt', True), ('a.py', False), ('b', True), ('c', False), ('.a', False)]),
+                      (G.compile('**/a', flags=G.G), [('x/y/a', True), ('x/y/b', False), ('a', True), ('a/b', False)]),
+                      (G.compile('**/a', flags=G.G | G.P), [('d/a', True), ('d/zz', False), ('a', True), ('ld/a', False), ('d/e/b', False), ('.hd/a', False)])]
+            for sweep in range(desc['sweeps']):
+                errs = []
+
+                def sworker(tid):
+                    rnd = random.Random(desc['seed'] * 1000 + sweep * 10 + tid)
+                    for _ in range(1500):
+                        m_, qa = shared[rnd.randrange(len(shared))]
+                        nm, want = qa[(tid + rnd.randrange(len(qa))) % len(qa)]
+                        kw = {'root_dir': root} if m_ is shared[3][0] else {}
+                        if rnd.random() < 0.2:
+                            got = nm in m_.filter([q[0] for q in qa], **kw)
+                        else:
+                            got = m_.match(nm, **kw)
+                        if bool(got) != want:
+                            errs.append((nm, bool(got), want))
+                            return
+                ts = [threading.Thread(target=sworker, args=(i,)) for i in range(8)]
+                for t in ts:
+                    t.start()
+                for t in ts:
+                    t.join()
+                out.evaluations += 8 * 1500
+                out.nontrivial(('threads-shared', desc['seed'], sweep))
+                if errs:
+                    nm, got, want = errs[0]
+                    out.violation({'name': nm, 'got': got, 'want': want, 'problem': 'a compiled matcher shared by 8 threads gave a wrong answer'},
+                                  bucket=('threads-shared',))
+                    break
         finally:
             sys.setswitchinterval(old)
-    out.sample({'kind': 'threads', 'threads': 8, 'calls_per_thread': 600, 'sweeps': desc['sweeps']})
+    out.sample({'kind': 'threads', 'threads': 8, 'calls_per_thread': 600, 'sweeps': desc['sweeps'], 'shared_matchers': 4})
     return out
 
 
